@@ -46,7 +46,7 @@ PYAGREE = {
     'C20': ['AddressFns', 'SockOpts'],
 }
 # leaves that are finished and committed
-PYAGREE_READY = {'AddressFns', 'AddressValidate', 'AddressInit', 'Pdu', 'MiscFd', 'MiscFc', 'MiscTimer'}
+PYAGREE_READY = {'SockOpts', 'AddressFns', 'AddressValidate', 'AddressInit', 'Pdu', 'MiscFd', 'MiscFc', 'MiscTimer'}
 
 
 def pyagree_theorems(mod):
